@@ -249,11 +249,13 @@ theorem partitionSL_eq : ∀ cs : List (Tree α), partitionSL isInexactArray (fu
   | c :: cs => by simp only [partitionSL, partSL, partitionS_eq c, partitionSL_eq cs]
 end
 
-/-- both generated partition statements are the hand model's `(partP, partS)` -/
+/-- the generated partition statements (both training loops; `get_ravelled_pytree_constructor` at its default filter) are the hand model's
+`(partP, partS)` -/
 theorem genPartition_eq (t : Tree α) :
     GenUnwrap.fitToDataPartition t = (partP t, partS t) ∧
-    GenUnwrap.fitToVariationalTargetPartition t = (partP t, partS t) := by
-  simp only [GenUnwrap.fitToDataPartition, GenUnwrap.fitToVariationalTargetPartition, partition, partitionP_eq, partitionS_eq,
-    and_self]
+    GenUnwrap.fitToVariationalTargetPartition t = (partP t, partS t) ∧
+    GenUnwrap.ravelledConstructorPartition t isInexactArray = (partP t, partS t) := by
+  simp only [GenUnwrap.fitToDataPartition, GenUnwrap.fitToVariationalTargetPartition, GenUnwrap.ravelledConstructorPartition,
+    partition, partitionP_eq, partitionS_eq, and_self]
 
 end PyTree
